@@ -1452,6 +1452,94 @@ static void xfmCases(const std::string &tn, long nCases, int stream)
 }
 
 // ------------------------------------------------------------------ main
+// ---- integer boxes whose bounds sit at the far ends of the element type: the predicates are comparisons of bounds and
+// must not depend on differences of coordinates fitting the type (UBSan watches the library for signed overflow)
+template <int N>
+static void extremeIntBoxes(const std::string &tn, long nPairs, int stream)
+{
+  typedef rk::box_t<int, N> B;
+  typedef rk::vec_t<int, N> V;
+  static const long long P[] = {-2147483647LL - 1, -2147483647LL, -2147483000LL, -7, -1, 0, 1, 5, 2147483000LL, 2147483646LL, 2147483647LL};
+  vh::Rng r(vh::seed(), 5000 + (uint64_t)stream);
+  long bad = 0;
+  for (long k = 0; k < nPairs && bad < 3; ++k) {
+    long long lo[2][4], up[2][4];
+    B bx[2];
+    for (int q = 0; q < 2; ++q)
+      for (int i = 0; i < N; ++i) {
+        long long a = P[r.below(11)], b = P[r.below(11)];
+        if (a > b && !r.chance(1, 10)) {
+          long long t = a;
+          a = b, b = t;
+        }
+        lo[q][i] = a, up[q][i] = b;
+        bx[q].lower[i] = (int)a, bx[q].upper[i] = (int)b;
+      }
+    bool ne[2] = {true, true}, meets = true;
+    for (int q = 0; q < 2; ++q)
+      for (int i = 0; i < N; ++i)
+        ne[q] = ne[q] && lo[q][i] <= up[q][i];
+    for (int i = 0; i < N; ++i)
+      meets = meets && std::max(lo[0][i], lo[1][i]) <= std::min(up[0][i], up[1][i]);
+    meets = meets && ne[0] && ne[1];
+    std::string ctx = "#" + std::to_string(k) + " " + tn + " a=[" + std::to_string(lo[0][0]) + ".." + std::to_string(up[0][0]) + ",...] b=[" + std::to_string(lo[1][0]) + ".." + std::to_string(up[1][0]) + ",...] (bounds at the ends of int)";
+    bool okk = bx[0].empty() == !ne[0] && bx[1].empty() == !ne[1];
+    okk = okk && rk::disjoint(bx[0], bx[1]) == !meets && rk::disjoint(bx[1], bx[0]) == !meets;
+    B is = rk::intersectionOf(bx[0], bx[1]);
+    if (ne[0] && ne[1]) {
+      okk = okk && is.empty() == !meets;
+      for (int i = 0; i < N; ++i)
+        okk = okk && is.lower[i] == (int)std::max(lo[0][i], lo[1][i]) && is.upper[i] == (int)std::min(up[0][i], up[1][i]);
+    }
+    V corner;
+    for (int i = 0; i < N; ++i)
+      corner[i] = bx[1].lower[i];
+    bool inA = ne[0];
+    for (int i = 0; i < N; ++i)
+      inA = inA && lo[0][i] <= lo[1][i] && lo[1][i] <= up[0][i];
+    okk = okk && bx[0].contains(corner) == inA;
+    if (!okk) {
+      ++bad;
+      vh::violation("C05:extreme-int." + tn + ":predicates-disagree-with-bounds", "empty/disjoint/intersectionOf/contains of boxes with bounds near INT_MIN / INT_MAX disagree with the comparison of their bounds", ctx);
+    }
+    vh::count("extreme_int_box_pairs");
+  }
+}
+template <int N>
+static void extremeIntTouching(const std::string &tn, long nPairs, int stream)
+{
+  typedef rk::box_t<int, N> B;
+  static const long long P[] = {-2147483647LL - 1, -2147483647LL, -7, 0, 5, 2147483646LL, 2147483647LL};
+  vh::Rng r(vh::seed(), 5100 + (uint64_t)stream);
+  long bad = 0;
+  for (long k = 0; k < nPairs && bad < 3; ++k) {
+    long long lo[2][3], up[2][3];
+    B bx[2];
+    bool ne[2] = {true, true}, meets = true;
+    for (int q = 0; q < 2; ++q)
+      for (int i = 0; i < N; ++i) {
+        long long a = P[r.below(7)], b = P[r.below(7)];
+        if (a > b && !r.chance(1, 10)) {
+          long long t = a;
+          a = b, b = t;
+        }
+        lo[q][i] = a, up[q][i] = b;
+        bx[q].lower[i] = (int)a, bx[q].upper[i] = (int)b;
+        ne[q] = ne[q] && a <= b;
+      }
+    for (int i = 0; i < N; ++i)
+      meets = meets && std::max(lo[0][i], lo[1][i]) <= std::min(up[0][i], up[1][i]);
+    meets = meets && ne[0] && ne[1];
+    if (rk::touchingOrOverlapping(bx[0], bx[1]) != meets || rk::touchingOrOverlapping(bx[1], bx[0]) != meets) {
+      ++bad;
+      vh::violation("C05:extreme-int." + tn + ":touchingOrOverlapping", std::string("touchingOrOverlapping is ") + (meets ? "false" : "true") + " for boxes that " + (meets ? "have" : "have no") + " common point",
+                    "#" + std::to_string(k) + " " + tn + " a.x=[" + std::to_string(lo[0][0]) + "," + std::to_string(up[0][0]) + "] b.x=[" + std::to_string(lo[1][0]) + "," + std::to_string(up[1][0]) + "] a.y=[" + std::to_string(lo[0][1]) + "," +
+                        std::to_string(up[0][1]) + "] b.y=[" + std::to_string(lo[1][1]) + "," + std::to_string(up[1][1]) + "]");
+    }
+    vh::count("extreme_int_touching_pairs");
+  }
+}
+
 int main(int argc, char **argv)
 {
   vh::init(argc, argv);
@@ -1460,7 +1548,7 @@ int main(int argc, char **argv)
       "1-D ranges: every (lower,upper) combination incl. inverted + the default box, all ordered pairs; higher dimensions: seeded random pairs "
       "(6% default-empty, 8% inverted, 12% degenerate, 40% of second operands placed relative to the first: equal / nested / touching / one step apart / "
       "corner touch / overlapping); every pair is evaluated on every lattice point of the cube one step larger than the bound range. rays and affine maps: "
-      "seeded random over lattice and arbitrary-float boxes. distinct = hash of (type, bounds of both boxes) resp. (box, ray, tRange) resp. (map, box); "
+      "seeded random over lattice and arbitrary-float boxes; integer boxes with bounds at the ends of int against comparisons of their bounds. distinct = hash of (type, bounds of both boxes) resp. (box, ray, tRange) resp. (map, box); "
       "non-trivial = at least one operand non-empty / box non-empty / map not the identity");
 
   int id = 0;
@@ -1506,6 +1594,12 @@ int main(int argc, char **argv)
   c3fa.finish();
   c4i.finish();
   c4f.finish();
+
+  extremeIntBoxes<2>("box2i", vh::tier(20000, 400000), 1);
+  extremeIntBoxes<3>("box3i", vh::tier(20000, 400000), 2);
+  extremeIntBoxes<4>("box4i", vh::tier(10000, 200000), 3);
+  extremeIntTouching<2>("box2i", vh::tier(20000, 400000), 4);
+  extremeIntTouching<3>("box3i", vh::tier(20000, 400000), 5);
 
   convCheck(c2i, c2f, 2000);
   convCheck(c3i, c3f, 2000);
